@@ -267,6 +267,32 @@ def definition(draw, tag, layer):
         pos = draw(st.integers(0, len(params)))
         params.insert(pos, {'name': 'h%d' % len(params), 'type': 'obj',
                             'hidden': True})
+    # parameters the host left undeclared: typed by yaql from the default
+    # value (any value when there is none), nullable; some have names that
+    # resemble the automatically injected ones (context, engine,
+    # yaql_interface and their __ spellings) without being them
+    near = ['_engine', '_context', 'engine_', '_yaql_interface',
+            'contexts']
+    for p in params:
+        if p.get('hidden') or p.get('lazy') or 'alias' in p or \
+                draw(st.integers(0, 4)) != 0:
+            continue
+        v = p.get('default')
+        if isinstance(v, bool):
+            t = 'bool'
+        elif isinstance(v, int):
+            t = 'int'
+        elif isinstance(v, str):
+            t = 'String'
+        elif isinstance(v, dict) and 'o' in v:
+            t = v['o'].upper()
+        elif v is None:
+            t = 'obj'
+        else:
+            continue
+        p['type'], p['nullable'], p['undeclared'] = t, True, True
+        if near and draw(st.booleans()):
+            p['name'] = near.pop(draw(st.integers(0, len(near) - 1)))
     d = {'tag': tag, 'layer': layer, 'kind': kind, 'params': params}
     if draw(st.integers(0, 3)) == 0:
         d['varargs'] = draw(st.sampled_from(TYPES))
